@@ -52,7 +52,7 @@ def _has(tree, kinds):
 TREE = st.one_of(node(1), node(2), node(3))
 NODE1 = node(1)
 ROUTE11 = st.one_of(streams.ROUTE, st.just(""))       # "" is not None: StreamToQueue documents "otherwise it is prefixed"
-EVENTS = st.lists(streams.event(routes=ROUTE11), min_size=1, max_size=8)
+EVENTS = st.lists(streams.event(routes=ROUTE11, stamps=(None, 0, 1, 2, "tz", "tz")), min_size=1, max_size=8)
 
 
 @st.composite
@@ -65,7 +65,8 @@ def s_case(draw):
     calls = []
     for ev in events:
         calls.append({"ev": ev, "npos": draw(st.integers(0, 2 if restricted else 9)),
-                      "omit_defaults": draw(st.booleans())})
+                      "omit_defaults": draw(st.booleans()),
+                      "reuse_set": draw(st.booleans())})       # the caller refills one scratch set instead of building a new one
     return {"tree": tree, "calls": calls, "bracket": draw(st.sampled_from(["run", "run", "none"]))}
 
 
@@ -92,8 +93,14 @@ def build(tree, sinks, queues, path, ffs):
         return CopyStreamResult([build(c, sinks, queues, path, ffs) for c in tree["children"]])
     if t == "tagger":
         p = path + [("tagger", frozenset(tree["add"]), frozenset(tree["discard"]))]
-        return StreamTagger([build(c, sinks, queues, p, ffs) for c in tree["children"]],
-                            add=set(tree["add"]), discard=set(tree["discard"]))
+        add, discard = set(tree["add"]), set(tree["discard"])
+        tagger = StreamTagger([build(c, sinks, queues, p, ffs) for c in tree["children"]], add=add, discard=discard)
+        # the constructor's arguments stay the caller's: what the caller does with them later is not the tagger's business
+        add.add("LATER-ADDED")
+        discard.update(("t", "u", "v", "w"))
+        add.clear()
+        discard.clear()
+        return tagger
     if t == "ts":
         return TimestampingStreamResult(build(tree["child"], sinks, queues, path + [("ts",)], ffs))
     if t == "queue":
@@ -153,8 +160,13 @@ def run_case(spec):
         root.startTestRun()
         drain(queues)
     caller_objs = []
+    scratch = set()
     for call in spec["calls"]:
         kw = streams.kwargs_of(call["ev"])
+        if call.get("reuse_set") and isinstance(kw["test_tags"], set):
+            scratch.clear()
+            scratch.update(kw["test_tags"])
+            kw["test_tags"] = scratch
         before = copy.deepcopy(kw)
         args = [kw[f] for f in streams.FIELDS[:call["npos"]]]
         rest = {f: kw[f] for f in streams.FIELDS[call["npos"]:]}
@@ -199,12 +211,14 @@ def run_case(spec):
                     if not (isinstance(tsv, datetime.datetime) and tsv.tzinfo is not None
                             and tsv.utcoffset() == datetime.timedelta(0) and t_start <= tsv <= t_end):
                         vs.append(V("field", "timestamp-fill", "missing timestamp filled with %r (not a current UTC datetime)" % (tsv,)))
-                elif g[f] != w[f]:
+                elif g[f] != w[f] or (f == "timestamp" and g[f] is not None and g[f].isoformat() != w[f].isoformat()):
                     owner = {"test_tags": "tags", "timestamp": "timestamp", "route_code": "route"}.get(f, "other")
                     vs.append(V("field", "%s-%s" % (owner, f), "event %d field %s: sink behind %r received %r, model says %r" % (i, f, path, g[f], w[f])))
         # what was delivered must not change afterwards
         for i, (live, (_, snap)) in enumerate(zip(rec.live, [e for e in rec.events if e[0] == "status"])):
             lt = live["test_tags"]
+            if lt is scratch:
+                continue        # the caller's own set, refilled by the caller
             if (None if lt is None else frozenset(lt)) != snap["test_tags"]:
                 vs.append(V("alias", "delivered-tags-changed-later",
                             "tags delivered to sink behind %r changed after delivery: %r -> %r" % (path, snap["test_tags"], lt)))
